@@ -79,9 +79,8 @@ impl EventGen for SvgElement {
                 (clip_el.name.as_str(), context.get_element_bbox(clip_el)?)
             {
                 bbox = el_bbox.intersect(&clip_bbox);
-                let mut el = self.clone();
-                el.content_bbox = bbox;
-                context.update_element(&el);
+                // `self` is the element as written: the registered copy is the resolved one
+                context.set_element_content_bbox(self, bbox);
             }
         }
 
